@@ -2652,19 +2652,45 @@ fn e2e_violate(input: &[V]) -> Vec<V> {
     out
 }
 
+/// A panic inside a simulation can leave the executor's thread-local state behind, and a later
+/// simulation in the same process may then spin forever.  So a panicking case ends the process
+/// (exit code 3, message on stderr): the orchestrator re-runs the lines of that shard one by one
+/// and reports the case as `!crash`, which every judge rejects.
+macro_rules! guarded {
+    ($f:ident) => {{
+        fn g(input: &[V]) -> Vec<V> {
+            match std::panic::catch_unwind(|| $f(input)) {
+                Ok(v) => v,
+                Err(e) => {
+                    let msg = if let Some(s) = e.downcast_ref::<&str>() {
+                        s.to_string()
+                    } else if let Some(s) = e.downcast_ref::<String>() {
+                        s.clone()
+                    } else {
+                        "?".to_string()
+                    };
+                    eprintln!("panic in {}: {}", stringify!($f), msg.replace('\n', " "));
+                    std::process::exit(3)
+                }
+            }
+        }
+        g as h_common::Component
+    }};
+}
+
 fn main() {
     // e2e_stream_cXX: the same run, judged for one property only by the extracted monitor
     h_common::main_with(&[
-        ("e2e_stream", e2e_stream),
-        ("e2e_stream_c01", e2e_stream),
-        ("e2e_stream_c02", e2e_stream),
-        ("e2e_stream_c03", e2e_stream),
-        ("e2e_stream_c12", e2e_stream),
-        ("e2e_amp", e2e_amp),
-        ("e2e_inject", e2e_inject),
-        ("e2e_pn", e2e_pn),
-        ("e2e_cid", e2e_cid),
-        ("e2e_cc", e2e_cc),
-        ("e2e_violate", e2e_violate),
+        ("e2e_stream", guarded!(e2e_stream)),
+        ("e2e_stream_c01", guarded!(e2e_stream)),
+        ("e2e_stream_c02", guarded!(e2e_stream)),
+        ("e2e_stream_c03", guarded!(e2e_stream)),
+        ("e2e_stream_c12", guarded!(e2e_stream)),
+        ("e2e_amp", guarded!(e2e_amp)),
+        ("e2e_inject", guarded!(e2e_inject)),
+        ("e2e_pn", guarded!(e2e_pn)),
+        ("e2e_cid", guarded!(e2e_cid)),
+        ("e2e_cc", guarded!(e2e_cc)),
+        ("e2e_violate", guarded!(e2e_violate)),
     ]);
 }
